@@ -344,6 +344,35 @@ class StoreMachine(LoggedMachine):
         if self.identified:
             self.ids[d['flight_id']] = len(self.model) - 1
 
+    @precondition(lambda self: self.ENABLE_FAULTS and not self.finished and self.store is not None and self.mode == 'w'
+                  and not self.model and not self.path.exists())
+    @rule(seed=st.integers(0, 2**20), raw_id=st.integers(0, 2**40))
+    def first_add_blocked_then_retry(self, seed, raw_id):
+        """The file name is taken by something else when the first trajectory arrives: the add is refused; once the
+        cause is removed the same store object accepts the trajectory as number 0 and persists it."""
+        self.op('first_add_blocked_then_retry', seed=seed, raw_id=raw_id)
+        self.ctx.evaluations += 1
+        d = {'n': 6, 'seed': seed, 'name': None, 'flight_id': None, 'extras': {}}
+        if self.with_bulk:
+            d['extras'][sc.fs_name(BULK)] = _bulk_values(seed, FILE_SPECIES)
+        if self.identified:
+            d['flight_id'] = self._fresh_id(raw_id)
+        self.path.write_text('somebody else was quicker')
+        try:
+            self.store.add(sc.build_traj(d, self.fdefs))
+        except core.PASS_THROUGH:
+            raise
+        except Exception:  # noqa: BLE001  (refusal expected: the output file exists)
+            pass
+        else:
+            self.path.unlink(missing_ok=True)
+            self._fail('add.blocked_accepted', 'first add succeeded although the base file name was taken')
+            return
+        self.path.unlink()
+        self.flags.add('first_add_blocked_then_retry')
+        self.add(None, 0, _desc=d)
+        self._unlog()
+
     def TS_eviction(self):
         from AEIC.trajectories.store import TrajectoryCache
 
